@@ -14,7 +14,7 @@ else
   (cd $scratch && patch -p1 --quiet < "$1") || { echo "patch failed"; rm -rf $scratch; exit 3; }
 fi
 cd /verif
-VERIF_NO_EVIDENCE=1 ./bin/govc check $id --repo $scratch --scratch 2>&1 | grep -v WARN | sed "s#$scratch#<scratch>#g"
+VERIF_NO_EVIDENCE=1 ./bin/govc check $id --repo $scratch --scratch ${MUTEST_ARGS:-} 2>&1 | grep -v WARN | sed "s#$scratch#<scratch>#g"
 rc=${PIPESTATUS[0]}
 rm -rf $scratch
 exit $rc
